@@ -2818,8 +2818,11 @@ class WorkflowGraph(object):
             ref_condition, (cond_stage, cond_name)
         ))
 
+        # VV: The condition of the document is relative to the stage that imports the document. Match the stage too:
+        # several DoWhile documents (e.g. the same document imported twice) may contain homonymous components
+        cond_stage_abs = (cond_stage or 0) + import_in_stage
         condition_instances = sorted(
-            [c for c in all_looped_ids if c[1].split('#', 1)[1] == cond_name],
+            [c for c in all_looped_ids if int(c[0]) == cond_stage_abs and c[1].split('#', 1)[1] == cond_name],
             # VV: Sort on iteration number from stage<idx:%d>.<iteration-no:%d>#<name:str>
             key=lambda c: int(c[1].split('#', 1)[0]),
             reverse=True
